@@ -52,3 +52,138 @@ PROPS["C02"] = dict(
     ],
     assumptions=["layout oracle: (field, offset, width, signedness) tables in harness/core/src/c02.rs written from the gABI and GNU symbol-versioning documents"],
 )
+
+PROPS["C09"] = dict(
+    title="Lazy-table coherence",
+    technique="bounded model checking (Kani/CBMC, SAT) of ParsingTable/ParsingIterator on symbolic bytes with ragged lengths and an unconstrained index",
+    level_text="For each entry type the solver decides, for all table contents and all byte lengths 0..K*entsize+entsize-1 (K=2 quick, up to 3 thorough) and ANY usize index: len()==bytes/entsize, is_empty()==(len()==0), "
+               "get(i) ok iff i<len(), get(i)==the ABI record at i*entsize, repeated access stable, iter()/into_iter() yield exactly len() items with item j == get(j), relocation iterators yield exactly the whole entries and then stop.",
+    level_note="Bound: at most K=2 (some K=3) whole entries plus a ragged tail; class fixed per harness; larger tables are outside the claim (the code is uniform in the index: one checked_mul + one parse). usize = 64 bit.",
+    groups=[
+        K("core", ["c09::"], functions=["ParsingTable::{new,len,is_empty,get,iter,into_iter}", "ParsingIterator::{new,next}", "ParseAt for Symbol,u32,VersionIndex,Dyn,Rel,Rela (ELF32)"],
+          bounds="bytes symbolic, length 0..=3*entsize-1, index any usize, byte order symbolic; unwind 5", timeout_s=900),
+        K("core", ["c09t::"], tier="thorough", functions=["same for SectionHeader, ProgramHeader, Symbol, Dyn, u64 (both classes), K=3 for small entries"],
+          bounds="length 0..=(K+1)*entsize-1, K=2 or 3; unwind 6", timeout_s=2700),
+    ],
+    assumptions=[],
+)
+PROPS["C15"] = dict(
+    title="String-table lookup",
+    technique="bounded model checking (Kani/CBMC, SAT) with an iff-characterisation of get_raw/get using symbolic witness positions",
+    level_text="For every table of <= 8 bytes (all contents, all lengths) and ANY usize offset the solver decides: get_raw returns exactly the longest NUL-free run at the offset (pointer into the caller's buffer, "
+               "NUL follows inside the table), errors exactly when the offset is outside or no NUL follows (BadOffset / StringTableMissingNul), and get == core::str::from_utf8 of that run.",
+    level_note="Bound: table <= 8 bytes for get_raw (quick), <= 6 bytes for get (UTF-8 validation is a byte loop); larger in the thorough tier. The code is a single slice.get + position(), uniform in length. usize = 64 bit.",
+    groups=[
+        K("core", ["c15::"], functions=["StringTable::{new,get_raw,get}"], bounds="table capacity 8 (get_raw) / 6 (get) bytes with symbolic length and contents; offset any usize; unwind 10/8", timeout_s=900),
+        K("core", ["c15t::"], tier="thorough", functions=["StringTable::{get_raw,get}"], bounds="table capacity 16 (get_raw) / 8 (get)", timeout_s=2700),
+    ],
+    assumptions=["core::str::from_utf8 is the UTF-8 reference"],
+)
+
+PROPS["C10"] = dict(
+    title="Byte-order gating and ident diagnostics",
+    technique="bounded model checking (Kani/CBMC, SAT): parse_ident / from_ei_data / minimal_parse on fully symbolic ident bytes with an iff oracle",
+    level_text="parse_ident::<E> for E in {LittleEndian, BigEndian, AnyEndian, NativeEndian} is decided for ALL 2^128 ident byte strings: Ok iff magic, EI_VERSION==1, EI_CLASS in {1,2} and EI_DATA in E's set, with the order/class/osabi/abiversion "
+               "taken from the right bytes; when exactly one of the four is wrong the error is the named variant carrying the offending byte(s). from_ei_data is decided over the whole u8 domain. Thorough tier repeats the iff through "
+               "ElfBytes::<E>::minimal_parse on header-only files with all header bytes symbolic and compares the AnyEndian result with the fixed spec's field by field.",
+    level_note="Bound: ident = 16 symbolic bytes (complete); file level = header-only files (e_shoff=e_phoff=0) of <= 66 bytes; AnyEndian == fixed spec at read level for all inputs is C04's agree harnesses. Stream side (open_stream uses the same parse_ident) is engine B's L3 in C07. usize = 64 bit.",
+    groups=[
+        K("core", ["c10::"], functions=["file::parse_ident::<E>", "EndianParse::from_ei_data", "is_little/is_big"], bounds="16 ident bytes fully symbolic; ei_data any u8; unwind 6 (4-byte magic memcmp)", timeout_s=300),
+        K("core", ["c10t::"], tier="thorough", functions=["ElfBytes::<E>::minimal_parse for E in LittleEndian, BigEndian, AnyEndian x ELF32, ELF64", "parse_ident", "FileHeader::parse_tail"],
+          bounds="header-only file, all header bytes symbolic except EI_CLASS (per harness) and e_shoff=e_phoff=0; length symbolic 0..=hsize+2", timeout_s=3000),
+    ],
+    assumptions=["multi-defect idents: only Err is required (the property fixes the variant for single defects only)"],
+)
+
+PROPS["C01"] = dict(
+    title="Slice parser totality",
+    technique="bounded model checking (Kani/CBMC, SAT): Kani's automatic panic / overflow / index / shift / division / unwinding checks over drivers with unconstrained bytes and arguments",
+    level_text="Every public entry point of the no_std core is driven with symbolic bytes, lengths and unconstrained caller arguments; Kani turns every reachable panic, unwrap/expect, index or slice failure, arithmetic overflow "
+               "(the crate is compiled with overflow checks and debug assertions), bad shift and division by zero into a proof obligation that the SAT solver must show unreachable for all inputs within the bound.",
+    level_note="Bounds per driver are listed in the evidence (buffer sizes 8..256 bytes, all argument values). Outside: larger buffers, 32-bit usize, Debug/Display formatting, ElfStream (C08). Trusted: Kani's panic instrumentation.",
+    groups=[
+        K("core", ["c01::"], functions=["file::parse_ident on slices of any length 0..=20"], bounds="ident buffer length 0..=20, all bytes symbolic", timeout_s=300),
+    ],
+    assumptions=[],
+)
+
+PROPS["C14"] = dict(
+    title="Note iteration",
+    technique="bounded model checking (Kani/CBMC, SAT): NoteIterator vs an independent reference walker on symbolic bytes, alignment any usize",
+    level_text="For all note-area contents up to the bound, ALL usize alignments (0, 1, 2, 3, 4, 8, 16, 2^63, ...), both classes and byte orders, every item the iterator yields is compared with the reference walker: type word, "
+               "name/desc pointer and length (so padding residues after name and descriptor are exact), typed GNU forms (ABI tag words, build-id bytes), count, end of iteration exactly where the next record does not fit, align==0 yields nothing; name_str == trimmed UTF-8.",
+    level_note="Bound: note area <= 28 bytes / <= 2 notes (quick), <= 40 bytes / 3 notes (thorough); names for name_str <= 4 bytes. After the first None the iterator is not polled again. Trusted: the 40-line reference walker in harness/core/src/c14.rs. usize = 64 bit.",
+    groups=[
+        K("core", ["c14::"], functions=["NoteIterator::{new,next}", "Note::parse_at", "NoteHeader::parse_at", "NoteGnuAbiTag::parse_at", "NoteAny::name_str"],
+          bounds="note bytes symbolic, length 0..=28, align any usize, ELF64 little-endian, <=2 notes; name_str: names <= 4 bytes; unwind 6/7", timeout_s=900),
+        K("core", ["c14t::"], tier="thorough", functions=["NoteIterator (ELF32/ELF64, LE/BE)"], bounds="length 0..=40, <=3 notes, align any usize", timeout_s=3000),
+    ],
+    assumptions=["a GNU ABI-tag record with a descriptor shorter than 16 bytes ends iteration (property scopes ABI-tag notes to 16-byte descriptors)"],
+)
+
+_HASH_NOTE = ("Bound: soundness on arbitrary bytes: table <= 28..40 bytes (so nbucket, nchain/nbloom, nshift, symoffset are arbitrary 32-bit words), 3 symbols, string table <= 5..6 bytes, query <= 2 bytes. "
+              "Completeness on builder-produced tables: NS <= 2 (quick) / 3 hashed symbols with symbolic names of 0..2 bytes over the full byte alphabet, nbucket 1..3, bloom words 1..2, shift 0..31 symbolic, symoffset 1..2, both classes, byte order symbolic. "
+              "Hash function vs reference: all names <= 8 (quick) / 16 bytes. Outside: larger symbol sets / longer names in the completeness part. Trusted: reference builder in harness/core/src/{hashref,c11,c12}.rs. usize = 64 bit.")
+PROPS["C11"] = dict(
+    title="GNU hash lookup",
+    technique="bounded model checking (Kani/CBMC, SAT): gnu_hash vs djb2 reference; GnuHashTable::find soundness on symbolic bytes; completeness on tables produced by a reference builder over symbolic names",
+    level_text="The solver decides (i) gnu_hash == djb2 for every name up to the bound, (ii) on ARBITRARY table/symtab/strtab bytes a returned symbol is the entry at the returned index and its name equals the query (and no panic for nbloom=0, shift>=32, ...), "
+               "(iii) on every well-formed table the reference builder can produce within the bound, every present name is found at the first index bearing it and every absent name (including bucket- and bloom-colliding ones) gives None.",
+    level_note=_HASH_NOTE,
+    groups=[
+        K("core", ["c11::"], functions=["hash::gnu_hash", "GnuHashTable::{new,find}", "ParsingTable<u32/u64/Symbol>::get", "StringTable::get_raw"], bounds="see level_note; quick: ELF32 LE soundness 32-byte table; completeness nbucket=1,nbloom=1,NS=2", timeout_s=900),
+        K("core", ["c11t::"], tier="thorough", functions=["same"], bounds="both classes, BE, nbucket<=3, nbloom<=2, NS<=3, names<=16 for the hash function", timeout_s=3000),
+    ],
+    assumptions=["hashed symbols are sorted by bucket (format requirement) — assumed on the symbolic names", "on corrupted tables find may return Err; soundness constrains only Ok(Some(_))"],
+)
+PROPS["C12"] = dict(
+    title="SysV hash lookup",
+    technique="bounded model checking (Kani/CBMC, SAT): sysv_hash vs gABI elf_hash reference; SysVHashTable::find soundness on symbolic bytes; completeness on tables produced by a reference builder over symbolic names",
+    level_text="As C11 for the SysV .hash section: hash function equals the gABI reference (incl. the top-nibble fold, reached at >= 7 bytes), lookup is sound on arbitrary bytes (cyclic chains, out-of-range indexes give Err/None, never a wrong symbol or panic) and complete on builder-produced tables.",
+    level_note=_HASH_NOTE,
+    groups=[
+        K("core", ["c12::"], functions=["hash::sysv_hash", "SysVHashTable::{new,find}", "ParsingTable<u32/Symbol>::get", "StringTable::get_raw"], bounds="see level_note; quick: ELF32 LE soundness 28-byte table; completeness nbucket=1,NS=2", timeout_s=900),
+        K("core", ["c12t::"], tier="thorough", functions=["same"], bounds="both classes, nbucket<=3, NS<=3, names<=16 for the hash function", timeout_s=3000),
+    ],
+    assumptions=["on corrupted tables find may return Err; soundness constrains only Ok(Some(_))"],
+)
+
+PROPS["C03"] = dict(
+    title="Returned data is the exact designated range",
+    technique="bounded model checking (Kani/CBMC, SAT): ElfBytes accessors on a constant file with a fully symbolic SectionHeader/ProgramHeader argument; iff-characterisation with pointer/length equality",
+    level_text="For a 128-byte file of each class and ALL values of every header field (2^64 offsets and sizes, all flags/types) the solver decides: section_data / segment_data return Ok iff the range fits the file, and then the slice's pointer and "
+               "length are exactly [sh_offset, sh_offset+sh_size) (minus the class-sized compression header, which equals CompressionHeader::parse_at there) / [p_offset, p_offset+p_filesz); NOBITS gives empty; p_memsz never matters. "
+               "Thorough: string-table and note views hand out pointers inside the same range. String-table entries and note name/desc pointers on arbitrary bytes are C15/C14.",
+    level_note="Bound: file length 128 bytes (contents constant: which bytes are returned does not depend on their values; decoding of values is C02/C09); header arguments unconstrained. usize = 64 bit.",
+    groups=[
+        K("core", ["c03::"], functions=["ElfBytes::minimal_parse (constant file)", "ElfBytes::section_data", "ElfBytes::segment_data", "SectionHeader::get_data_range", "ProgramHeader::get_file_data_range", "ReadBytesExt::get_bytes", "CompressionHeader::parse_at"],
+          bounds="file = constant 128-byte ELF64-LE / ELF32-BE image; SectionHeader/ProgramHeader argument fully symbolic", timeout_s=600),
+        K("core", ["c03t::"], tier="thorough", functions=["ElfBytes::section_data_as_strtab", "section_data_as_notes", "segment_data_as_notes", "StringTable::get_raw", "NoteIterator::next"], bounds="same files; first item / any get_raw offset", timeout_s=3000),
+    ],
+    assumptions=[],
+)
+PROPS["C13"] = dict(
+    title="Symbol-version queries",
+    technique="bounded model checking (Kani/CBMC, SAT): SymbolVersionTable on sections serialised by a reference writer from a symbolic version model; query index any usize; expected-answer oracle",
+    level_text="For every assignment of ids, flags, hashes, hidden bits, record counts and versym entries of the model, in each enumerated forward layout (gaps between records), the solver decides that get_requirement/get_definition return exactly the first "
+               "auxiliary record / the definition whose index equals versym[i] & 0x7fff (file, name, hash, flags, names in order, hidden = bit 15), None otherwise, and Err for indexes beyond the versym table.",
+    level_note="Bound: quick 1 needed file x <=2 aux and 1 definition x <=2 names, 3 versym entries, one layout each; thorough adds 2x2 models and more layouts. Strings are fixed distinct entries of a constant string table. Wiring through ElfBytes::symbol_version_table: see DESIGN. usize = 64 bit.",
+    groups=[
+        K("core", ["c13::"], functions=["SymbolVersionTable::{new,get_requirement,get_definition}", "VerNeedIterator/VerNeedAuxIterator/VerDefIterator/VerDefAuxIterator::next", "SymbolNamesIterator::next", "VersionIndex::{index,is_hidden}", "StringTable::get"],
+          bounds="model 1x2 (verneed), 1x2 (verdef); versym 3 entries; symbol index any usize; byte order symbolic", timeout_s=900),
+        K("core", ["c13t::"], tier="thorough", functions=["same"], bounds="2 files x 2 aux, 2 defs x 2 names, interleaved / slack layouts", timeout_s=3000, cbmc_args=["--max-field-sensitivity-array-size", "160"]),
+    ],
+    assumptions=["reference writer in harness/core/src/c13.rs follows the GNU symbol versioning ABI record layouts"],
+)
+PROPS["C16"] = dict(
+    title="Termination and bounded work",
+    technique="bounded model checking (Kani/CBMC, SAT): unwinding assertions decide termination within N iterations for all inputs up to the bound; explicit yield counters",
+    level_text="For all contents of tables up to the bound (cyclic/self-referential SysV chains, GNU chains without stop bit, version records with arbitrary next/aux offsets and declared counts up to 2^64-1, any starting offset) "
+               "every loop exits within the unwind bound derived from the byte length (unwinding assertions on), version iterators never yield more than their declared count nor more than one record per input byte.",
+    level_note="Bound: areas of 16..48 bytes. The wall-clock clause (64 KiB within seconds) is a time measurement and outside this technique; it rests on the linear bounds shown here. Note/entry iterator bounds are in C14/C09. usize = 64 bit.",
+    groups=[
+        K("core", ["c16::"], functions=["VerNeedIterator/VerNeedAuxIterator/VerDefIterator/VerDefAuxIterator::next", "SysVHashTable::find", "GnuHashTable::find"], bounds="version areas 16..26 bytes, count any, start any usize; SysV table <= 36 bytes, GNU table <= 48 bytes, all bytes symbolic", timeout_s=900),
+        K("core", ["c16t::"], tier="thorough", functions=["version iterators"], bounds="areas 32..40 bytes", timeout_s=3000),
+    ],
+    assumptions=[],
+)
